@@ -7,8 +7,9 @@ pub mod error {
 
 // One event per execution of an abstract child: which child, the errexit-suppression flag it was given, whether it
 // returned Ok, and (if Ok) the control flow and exit code it produced.  `val` is the value of an arithmetic child.
+// `aux` is a unit-defined ghost payload (e.g. the string a word expanded to).
 // `conv` is what `Error::into_result` makes of a failed child's error (only constrained where an executor uses it).
-pub struct Ev { pub node: Node, pub suppress: bool, pub ok: bool, pub cf: ExecutionControlFlow, pub code: ExecutionExitCode, pub val: i64, pub conv: (ExecutionControlFlow, ExecutionExitCode) }
+pub struct Ev { pub node: Node, pub suppress: bool, pub ok: bool, pub cf: ExecutionControlFlow, pub code: ExecutionExitCode, pub val: i64, pub conv: (ExecutionControlFlow, ExecutionExitCode), pub aux: Aux }
 
 #[verifier::external_body]
 pub struct Shell { _p: u8 }
